@@ -179,6 +179,12 @@ func (s *Fn) callFacts(c *ssa.Call, ret func(i int) Lin, res int) {
 	case "bytes.IndexByte", "strings.IndexRune", "strings.IndexAny", "strings.IndexByte", "bytes.IndexRune", "bytes.IndexAny":
 		s.addGlobal(le(konst(-1), r))
 		s.addGlobal(lt(r, s.lenOf(a[0])))
+	case "bytes.LastIndex", "strings.LastIndex":
+		s.addGlobal(le(konst(-1), r))
+		s.addGlobal(le(r.add(s.lenOf(a[1]), 1), s.lenOf(a[0])))
+	case "bytes.LastIndexByte", "strings.LastIndexByte", "bytes.LastIndexAny", "strings.LastIndexAny", "bytes.IndexFunc", "bytes.LastIndexFunc", "strings.IndexFunc", "strings.LastIndexFunc":
+		s.addGlobal(le(konst(-1), r))
+		s.addGlobal(lt(r, s.lenOf(a[0])))
 	case "io.ReadFull":
 		if res == 0 {
 			s.addGlobal(le(konst(0), r))
@@ -379,6 +385,14 @@ func (s *Fn) condFacts(cond ssa.Value, val bool) (fs []Lin, dq []Lin) {
 			fs = append(fs, le(s.lenOf(c.Call.Args[1]), s.lenOf(c.Call.Args[0])))
 		}
 		if f := c.Call.StaticCallee(); f != nil && s.e.inMod(f) && val {
+			if sum := s.e.sums[f]; sum != nil && len(sum.truePost) > 0 {
+				env := s.callEnvAt(c, func(int) Lin { return konst(0) })
+				for _, cand := range sum.truePost {
+					if cand.ok {
+						fs = append(fs, cand.mk(env))
+					}
+				}
+			}
 			cs := s.e.returnCases(f)
 			var may []retCase
 			for _, rc := range cs {
